@@ -743,11 +743,9 @@ impl Kernel {
         Ok(())
     }
 
+    /// Not a scheduling point: memmap2 caches the page size process-wide after its first call, so
+    /// counting these calls would make a run depend on what ran earlier in the same process.
     pub fn sys_sysconf_pagesize(&mut self) -> Result<i64, i32> {
-        let eff = self.enter(CallKind::Sysconf, b"");
-        if let Some(Effect::Errno(e)) = eff {
-            return Err(e);
-        }
         Ok(4096)
     }
 
